@@ -16,6 +16,7 @@ EXTENDS Cells, TLC
 CONSTANTS Configs,     \* set of <<mesh, fld>> pairs (rotatable and refusal configurations)
           Gens,        \* generator names usable in Rotate
           TNSet,       \* explicit target resolutions tried with every rotation
+          Gens3,       \* generators usable as the third rotation of a program
           PostGens,    \* generators tried after a clear (one rotation)
           MaxDepth,    \* max rotations since the last clear
           MaxD         \* max common denominator of the accumulated rotation
@@ -23,7 +24,11 @@ CONSTANTS Configs,     \* set of <<mesh, fld>> pairs (rotatable and refusal conf
 VARIABLES mesh, fld, prog, rot, act, obs
 vars == <<mesh, fld, prog, rot, act, obs>>
 
-Rej == [ok |-> FALSE]
+(* a refusal: at = "constructor" when FieldRotator(field) itself must raise (the cases its  *)
+(* checks name: dimension, component count, a component without an axis of the region),  *)
+(* "any" when the property only says "refused" and the code raises at the first rotate()  *)
+(* (two components mapped to the same axis)                                               *)
+Rej(at) == [ok |-> FALSE, at |-> at]
 
 (* ---- integer helpers --------------------------------------------------------------- *)
 LCM(a, b)  == (a \div GCD(a, b)) * b
@@ -87,6 +92,8 @@ NClears(p) == Cardinality({k \in DOMAIN p : p[k] = "clear"})
 Rotatable(me, f) == /\ Len(me.n) = 3
                     /\ f.nv \in {1, 3}
                     /\ (f.nv = 3 => IsPerm3(f.map))
+RefusedAt(me, f) == IF Len(me.n) # 3 \/ f.nv \notin {1, 3} \/ (\E k \in DOMAIN f.map : f.map[k] = 0)
+                    THEN "constructor" ELSE "any"
 E(me, j)     == me.c[j] * me.n[j]
 CentreX(me, s) == [j \in D3 |-> (2 * s[j] + 1 - me.n[j]) * me.c[j]]
 AffAt(f, X)  == f.a[1] * X[1] + f.a[2] * X[2] + f.a[3] * X[3] + f.b
@@ -133,6 +140,35 @@ IsCubic(me)    == me.c[1] = me.c[2] /\ me.c[2] = me.c[3]
 (* classes: 0 outside (must be zero), 1 at least one cell inside (must be R.interp),    *)
 (*          2 band (unconstrained), 3 band but exactly on a source centre,              *)
 (*          4 inside with arbitrary cell values (value given by C18Interp, if at all)   *)
+(* ---- trilinear interpolation of arbitrary cell values at q ------------------------- *)
+(* along axis j the index-space coordinate of q is u = (q/c + n - 1)/2 = un/ud; the cell  *)
+(* pair is (s0, s0+1) with s0 = floor(u) clipped to the outermost centres, the weight of  *)
+(* s0+1 is a/b (reduced), of s0 it is (b-a)/b                                             *)
+InterpAxis(me, q, qd, j) ==
+   LET ud == 2 * me.c[j] * qd
+       un == q[j] + (me.n[j] - 1) * me.c[j] * qd
+       s0 == Clip(un \div ud, 0, me.n[j] - 2)
+       wn == un - s0 * ud
+       g  == GCD(Abs(wn), ud)
+   IN [s0 |-> s0, a |-> wn \div g, b |-> ud \div g]
+InterpDen(ax) == ax[1].b * ax[2].b * ax[3].b
+InterpFits(ax) == ax[1].b <= 3000 /\ ax[2].b <= 3000 /\ ax[3].b <= 3000 /\ ax[1].b * ax[2].b <= 2000000
+                  /\ (ax[1].b * ax[2].b) * ax[3].b <= 10000000
+Bits == <<<<0, 0, 0>>, <<1, 0, 0>>, <<0, 1, 0>>, <<1, 1, 0>>, <<0, 0, 1>>, <<1, 0, 1>>, <<0, 1, 1>>, <<1, 1, 1>>>>
+(* numerators (over InterpDen) of the interpolated components *)
+InterpNum(me, f, ax) ==
+   LET W(j, bit) == IF bit = 1 THEN ax[j].a ELSE ax[j].b - ax[j].a
+       corner(e) == <<ax[1].s0 + Bits[e][1], ax[2].s0 + Bits[e][2], ax[3].s0 + Bits[e][3]>>
+       wt(e) == W(1, Bits[e][1]) * W(2, Bits[e][2]) * W(3, Bits[e][3])
+   IN [k \in 1 .. f.nv |-> SumSeq([e \in 1 .. 8 |-> IF wt(e) = 0 THEN 0 ELSE wt(e) * SrcVal(me, f, corner(e))[k]])]
+(* Q applied to the interpolated original *)
+InterpRot(me, f, ro, ax) ==
+   LET num == InterpNum(me, f, ax)
+       D   == InterpDen(ax)
+       u   == RotVecNum(ro, f, num)
+   IN [k \in 1 .. f.nv |-> RNorm(u[k], IF f.nv = 1 THEN D ELSE D * ro.d)]
+SmallValues(f) == f.kind # "cells" \/ \A k \in DOMAIN f.src : \A c \in DOMAIN f.src[k] : Abs(f.src[k][c]) <= 10
+
 CellObsQ(me, f, ro, q, qd, uv) ==
    IF OutsideQ(me, q, qd) THEN [cls |-> 0, val |-> [k \in 1 .. f.nv |-> RZero]]
    ELSE IF OnCentreQ(me, q, qd)
@@ -142,7 +178,10 @@ CellObsQ(me, f, ro, q, qd, uv) ==
    ELSE IF f.kind = "vec" THEN [cls |-> 1, val |-> uv]
    ELSE IF f.kind = "aff"
         THEN [cls |-> 1, val |-> <<RNorm(f.a[1] * q[1] + f.a[2] * q[2] + f.a[3] * q[3] + f.b * qd, qd)>>]
-   ELSE [cls |-> 4, val |-> <<>>]
+   ELSE LET ax == [j \in D3 |-> InterpAxis(me, q, qd, j)] IN
+        IF ro.d <= 5 /\ SmallValues(f) /\ InterpFits(ax)
+        THEN [cls |-> 1, val |-> InterpRot(me, f, ro, ax)]
+        ELSE [cls |-> 4, val |-> <<>>]       \* inside, but the exact value does not fit 32-bit arithmetic
 UV(ro, f) == IF f.kind = "vec" THEN RotVec(ro, f, f.v) ELSE <<>>
 CellObs(me, f, ro, tn, t) == CellObsQ(me, f, ro, QVec(me, ro, tn, t), Qden(ro, tn), UV(ro, f))
 
@@ -170,7 +209,7 @@ Init == /\ \E cf \in Configs : mesh = cf[1] /\ fld = cf[2]
         /\ prog = <<>>
         /\ rot = IdRot
         /\ act = <<"new">>
-        /\ obs = IF Rotatable(mesh, fld) THEN Original(mesh, fld) ELSE Rej
+        /\ obs = IF Rotatable(mesh, fld) THEN Original(mesh, fld) ELSE Rej(RefusedAt(mesh, fld))
 
 TargetNs(me, r) == TNSet \cup (IF IsLattice(r) THEN {PermN(me, r)} ELSE {})
 
@@ -178,7 +217,7 @@ TargetNs(me, r) == TNSet \cup (IF IsLattice(r) THEN {PermN(me, r)} ELSE {})
 Rotate == \E g \in Gens :
             LET r2 == RMulRot(GenRot(g), rot) IN
             /\ obs.ok
-            /\ IF NClears(prog) = 0 THEN Len(prog) < MaxDepth
+            /\ IF NClears(prog) = 0 THEN Len(prog) < MaxDepth /\ (Len(prog) >= 2 => g \in Gens3)
                                     ELSE prog[Len(prog)] = "clear" /\ g \in PostGens
             /\ r2.d <= MaxD
             /\ \E tn \in TargetNs(mesh, r2) :
@@ -211,7 +250,8 @@ C18_Composition == LET F == FoldRot(SinceClear(prog)) IN
                    /\ rot = Reduce(F.m, F.d)
                    /\ act[1] = "rotate" => obs = Observe(mesh, fld, Reduce(F.m, F.d), act[3])
 C18_ClearRestores == act[1] = "clear" => rot = IdRot /\ obs = Original(mesh, fld)
-C18_Refusals == obs.ok <=> Rotatable(mesh, fld)
+C18_Refusals == /\ obs.ok <=> Rotatable(mesh, fld)
+                /\ ~obs.ok => prog = <<>> /\ (obs.at = "constructor" <=> RefusedAt(mesh, fld) = "constructor")
 
 (* the new region is the axis-aligned bounding box of the rotated region, same centre:  *)
 (* every rotated corner is inside and every face is touched by one                      *)
@@ -235,6 +275,15 @@ C18_UniformBecomesUniform == obs.ok /\ act[1] = "rotate" /\ fld.kind = "vec" =>
             /\ obs.cells[k].cls = 1 => obs.cells[k].val = RotVec(rot, fld, fld.v)
             /\ obs.cells[k].cls = 0 => \A c \in DOMAIN obs.cells[k].val : obs.cells[k].val[c] = RZero
       /\ LET u == RotVecNum(rot, fld, fld.v) IN Dot(u, u) = rot.d * rot.d * Dot(fld.v, fld.v)
+(* linear scalar fields are reproduced exactly BECAUSE the value is the trilinear            *)
+(* interpolation of the cell values: where the arithmetic fits, interpolating the cell       *)
+(* values of the affine field gives a.q + b                                                  *)
+C18_InterpReproducesAffine == obs.ok /\ act[1] = "rotate" /\ fld.kind = "aff" /\ rot.d <= 5 =>
+      \A k \in DOMAIN obs.cells :
+         LET q  == QVec(mesh, rot, act[3], Unflat(act[3], k - 1))
+             qd == Qden(rot, act[3])
+             ax == [j \in D3 |-> InterpAxis(mesh, q, qd, j)]
+         IN obs.cells[k].cls = 1 /\ InterpFits(ax) /\ InterpDen(ax) <= 2000000 => obs.cells[k].val = InterpRot(mesh, fld, rot, ax)
 (* for cubic cells a quarter turn (and any product of quarter turns) is the lattice     *)
 (* rotation of C12: every target cell is a source cell, values rotated through the map  *)
 C18_QuarterTurnEqualsRotate90 ==
